@@ -94,10 +94,10 @@ impl OW {
     fn check_all_woken(&self, sink: &mut Sink, why: &str) {
         for (i, s) in self.subs.iter().enumerate() {
             if let Some(s) = s { if s.parked && !s.flag.0.load(Ordering::SeqCst) {
-                sink.oracle_fail(if self.asyncf { "C02,C16" } else { "C02" }, &format!("subscriber {i} was Pending and is not woken by {why}"));
+                sink.oracle_fail(if self.asyncf { "C02,C16,C01" } else { "C02,C01" }, &format!("subscriber {i} was Pending and is not woken by {why}"));
             } }
             if let Some(s) = s { if s.tparked && !self.task_flag.0.load(Ordering::SeqCst) {
-                sink.oracle_fail(if self.asyncf { "C02,C16" } else { "C02" }, &format!("subscriber {i} was Pending when polled by the task that polls several subscribers with one waker, and the task is not woken by {why}"));
+                sink.oracle_fail(if self.asyncf { "C02,C16,C01" } else { "C02,C01" }, &format!("subscriber {i} was Pending when polled by the task that polls several subscribers with one waker, and the task is not woken by {why}"));
             } }
         }
     }
@@ -274,7 +274,7 @@ impl OW {
             sink.oracle_fail(&prop, &format!("poll of subscriber {i} answered {shown}, the specification says {expect}"));
         }
         if was_parked && shown != "Pending" {
-            sink.oracle_fail(&format!("{p}C02"), &format!("subscriber {i} was Pending, was not woken, and a further poll answered {shown}"));
+            sink.oracle_fail(&format!("{p}C02,C01"), &format!("subscriber {i} was Pending, was not woken, and a further poll answered {shown}"));
         }
         sink.stat(if task { "pollt" } else if via == 1 { "nextfut" } else if via == 2 { "nextreffut" } else { "poll" });
         sink.line(&format!("{} {i}", if task { "opollt" } else if via == 1 { "onextf" } else if via == 2 { "onextrf" } else { "opoll" }), &shown);
